@@ -9,13 +9,16 @@
 (* C15 for the OpenCL / CUDA forms of the same functions).                 *)
 (*                                                                         *)
 (* Input (env TRACE_FILE): sequence of records [t, progs] with progs a     *)
-(* sequence of [p, ops]: p a type path (index steps all-zero tuples), ops  *)
-(* the parsed program in the instruction set of XoCapi.                    *)
+(* sequence of [p, kind, ops, c, w]: p a type path (index steps all-zero     *)
+(* tuples), ops the parsed program in the instruction set of XoCapi, kind, *)
+(* c, w as in XoCapi!AccOf.                                                *)
 (* Verdict per record: "" or "<clause>@ext=<n>" of the first extent with a *)
 (* disagreement; clauses                                                    *)
 (*   prog:ill-scoped      an index variable the path does not bind or a    *)
 (*                        stride that was never loaded                     *)
-(*   prog:address         the program does not compute Nav's address       *)
+(*   prog:<kind>          the accessor of that kind (getp get set len      *)
+(*                        typeid) does not arrive at what the format gives *)
+(*                        (address; address and width; item count; member) *)
 (***************************************************************************)
 EXTENDS XoCapi, Json, IOUtils, TLCExt
 
@@ -27,11 +30,11 @@ tvars == <<tid, done>>
 Table(rec) == {rec.progs[n] : n \in 1..Len(rec.progs)}
 Verdict(rec) ==
   IF \E e \in Table(rec) : ~WellScoped(e.ops, Len(Idxs(e.p))) THEN "prog:ill-scoped"
-  ELSE LET bad == {x \in Exts : Disagree(rec.t, Image(rec.t, x), 0, Table(rec)) # {}} IN
+  ELSE LET bad == {x \in Exts : AccDisagree(rec.t, Image(rec.t, x), 0, Table(rec)) # {}} IN
        IF bad = {} THEN ""
        ELSE LET x == CHOOSE y \in bad : \A z \in bad : y <= z
-                p == CHOOSE q \in Disagree(rec.t, Image(rec.t, x), 0, Table(rec)) : TRUE
-            IN "prog:address@ext=" \o ToString(x) \o "@path=" \o ToString(p)
+                q == CHOOSE r \in AccDisagree(rec.t, Image(rec.t, x), 0, Table(rec)) : TRUE
+            IN "prog:" \o q[2] \o "@ext=" \o ToString(x) \o "@path=" \o ToString(q[1])
 
 Init == tid \in 1..Len(Recs) /\ done = FALSE
 Next == /\ ~done
